@@ -166,3 +166,36 @@ package core
 //@   assert-call Authenticate: !caller_req.AccessRequest.SkipAuth && req == resultof(ToAuthRequest) && called(ToAuthRequest) == 1
 //@   assert-call createPath: resultof(FindPathConf, 2) == nil && (caller_req.AccessRequest.SkipAuth || (called(Authenticate) == 1 && resultof(Authenticate, 1) == nil)) && pathConf == resultof(FindPathConf, 0)
 //@   assert-call Int64.Add: resultof(FindPathConf, 2) == nil && (caller_req.AccessRequest.SkipAuth || (called(Authenticate) == 1 && resultof(Authenticate, 1) == nil))
+
+// C15 (sub-claims): a path configuration can be updated in place only if every field outside the hot-reloadable
+// set is unchanged - in particular the ones other invariants rely on; a live path that is reloaded receives the
+// configuration that resolution selects for ITS name in the NEW table; on reload the path adopts the new
+// configuration, hands the forwarder the new destinations, restarts the recorder iff a recording parameter
+// changed and starts one iff recording is on, the stream is available and none runs.
+
+//@ func pathConfCanBeUpdated
+//@   property C15
+//@   safety -all
+//@   domain oldPathConf != nil && newPathConf != nil
+//@   assert-call Path.Clone: true
+//@   assert-call Path.Equal: pconf == newPathConf && other == resultof(Path.Clone)
+//@   ensures [limits-and-source-not-hot-reloadable] result ==> newPathConf.MaxReaders == old(oldPathConf.MaxReaders) && newPathConf.Source == old(oldPathConf.Source) && newPathConf.SourceOnDemand == old(oldPathConf.SourceOnDemand) && newPathConf.OverridePublisher == old(oldPathConf.OverridePublisher) && newPathConf.AlwaysAvailable == old(oldPathConf.AlwaysAvailable) && newPathConf.RunOnDemand == old(oldPathConf.RunOnDemand)
+//@   ensures [old-configuration-untouched] oldPathConf.MaxReaders == old(oldPathConf.MaxReaders) && oldPathConf.Record == old(oldPathConf.Record) && oldPathConf.Name == old(oldPathConf.Name)
+
+//@ func (pm *pathManager) doReloadConf
+//@   property C15
+//@   safety -all
+//@   assert-call FindPathConf: pathConfs == newPaths && name == pathName
+//@   assert-call path.reloadConf: called(FindPathConf) >= 1 && resultof(FindPathConf, 2) == nil && newConf == resultof(FindPathConf, 0) && pa == local(pa, *path)
+
+//@ func (pa *path) doReloadConf
+//@   property C15
+//@   safety -all
+//@   domain newConf != nil && pa.conf != nil
+//@   def recChanged() bool = newConf.Record != old(pa.conf.Record) || newConf.RecordPath != old(pa.conf.RecordPath) || newConf.RecordFormat != old(pa.conf.RecordFormat) || newConf.RecordPartDuration != old(pa.conf.RecordPartDuration) || newConf.RecordMaxPartSize != old(pa.conf.RecordMaxPartSize) || newConf.RecordSegmentDuration != old(pa.conf.RecordSegmentDuration) || newConf.RecordDeleteAfter != old(pa.conf.RecordDeleteAfter)
+//@   assert-call Manager.ReloadConf: m == old(pa.forwardManager) && forward == newConf.Forward
+//@   assert-call Handler.ReloadConf: newConf == caller_newConf
+//@   assert-call Recorder.Close: old(pa.recorder) != nil && recChanged() && r == old(pa.recorder)
+//@   assert-call startRecording: called(Recorder.Close) == b2i(old(pa.recorder) != nil && recChanged())
+//@   ensures [recorder-restarted-iff-recording-parameters-changed] called(Recorder.Close) == b2i(old(pa.recorder) != nil && recChanged())
+//@   ensures [forwarder-gets-new-destinations] called(Manager.ReloadConf) == 1
